@@ -256,7 +256,8 @@ def listed_class(cfg_json, typed, src=None, tables=()):
     sn = dict(cfg_json.get('snippets') or {})
     for t in tables:
         sn.update(t or {})
-    if typed == GRADIENT_KEY and GRADIENT_KEY in sn:
+    # the key typed alone or with a keyword / value after it (`lg-unset`, `lg:INHERIT`): the table's `lg` is the snippet addressed
+    if GRADIENT_KEY in sn and isinstance(typed, str) and re.match(re.escape(GRADIENT_KEY) + r'(?:$|[-:])', typed):
         return KEY_GRADIENT
     src = src if src is not None else sn.get(typed)
     if isinstance(src, str) and re.search(r'\)\$\{', src):
